@@ -208,6 +208,647 @@ theorem localAt : ∀ f, LocalAt S f := by
     case exponentLoop =>
       intro acc ts e d r h; simp only [pExponentLoop] at h
       loop_step pExponentLoop, ih.exponent, ih.exponentLoop, hR.tag_eq _ (by decide) (by decide)
-    all_goals sorry
+    case expression =>
+      intro ts e d r h
+      simp only [pExpression] at h
+      split at h
+      · rename_i e1 r1 h1
+        split at h
+        · rename_i t r1'
+          split at h
+          · rename_i has
+            split at h
+            · rename_i u r2
+              split at h
+              · rename_i un hu
+                cases h
+                obtain ⟨c, rfl, H1⟩ := Loc.deep ih.term Sw.refl [t, u] h1
+                refine ⟨c ++ [t, u], by simp, fun d' r' hR => ?_⟩
+                have h1' := H1 d' r' (fun hh => by cases hh)
+                simp only [List.cons_append, List.nil_append, List.append_assoc] at h1' ⊢
+                simp only [pExpression, h1', has, if_true, hu]
+              · cases h
+            · cases h
+          · rename_i has
+            cases h
+            obtain ⟨c, rfl, H1⟩ := ih.term _ _ _ _ h1
+            refine ⟨c, rfl, fun d' r' hR => ?_⟩
+            simp only [pExpression, H1 d' r' hR]
+            rw [if_neg (by rw [hR.tag_eq _ (by decide) (by decide)]; exact has)]
+        · cases h
+      · cases h
+      · cases h
+    case unary =>
+      intro ts e d r h
+      simp only [pUnary] at h
+      split at h
+      · rename_i t r0
+        split at h
+        · rename_i hop
+          split at h
+          · rename_i x r1 h1
+            cases h
+            obtain ⟨c, rfl, H1⟩ := ih.unary _ _ _ _ h1
+            refine ⟨t :: c, rfl, fun d' r' hR => ?_⟩
+            simp only [List.cons_append, pUnary, hop, if_true, H1 d' r' hR]
+          · cases h
+          · cases h
+        · rename_i hop
+          obtain ⟨c, hc, H1⟩ := ih.factorial _ _ _ _ h
+          refine ⟨c, hc, fun d' r' hR => ?_⟩
+          cases c with
+          | nil =>
+            simp only [List.nil_append] at hc
+            rw [hc] at h
+            exact absurd ((suffixAt f).factorial _ _ _ h).length_lt (Nat.lt_irrefl _)
+          | cons t' c' =>
+            simp only [List.cons_append, List.cons.injEq] at hc
+            obtain ⟨rfl, rfl⟩ := hc
+            have h1' := H1 d' r' hR
+            simp only [List.cons_append] at h1' ⊢
+            simp only [pUnary, hop]
+            exact h1'
+      · obtain ⟨c, hc, _⟩ := ih.factorial _ _ _ _ h
+        simp at hc
+    case factorialLoop =>
+      intro acc ts e d r h
+      simp only [pFactorialLoop] at h
+      split at h
+      · rename_i t r0
+        split at h
+        · rename_i hop
+          obtain ⟨c, rfl, H⟩ := ih.factorialLoop _ _ _ _ _ h
+          refine ⟨t :: c, rfl, fun d' r' hR => ?_⟩
+          simp only [List.cons_append, pFactorialLoop, hop, if_true, H d' r' hR]
+        · rename_i hop
+          cases h
+          refine ⟨[], rfl, fun d' r' hR => ?_⟩
+          simp only [List.nil_append, pFactorialLoop]
+          rw [if_neg (by rw [hR.tag_eq _ (by decide) (by decide)]; exact hop)]
+      · cases h
+    case callLoop =>
+      intro acc ts e d r h
+      simp only [pCallLoop] at h
+      split at h
+      · rename_i t r0
+        split at h
+        · rename_i hop
+          split at h
+          · rename_i args r1 h1
+            split at h
+            · rename_i cl r2 h2
+              obtain ⟨rfl, hcl⟩ := consume_ok h2
+              obtain ⟨c2, rfl, H2⟩ := ih.callLoop _ _ _ _ _ h
+              obtain ⟨c, rfl, H1⟩ := Loc.deep ih.args Sw.refl (cl :: c2) h1
+              refine ⟨t :: (c ++ cl :: c2), by simp, fun d' r' hR => ?_⟩
+              have h1' := H1 d' r' (fun hh => by cases hh)
+              have h2' := H2 d' r' hR
+              simp only [List.cons_append, List.append_assoc] at h1' ⊢
+              simp only [pCallLoop, hop, if_true, h1', consume, hcl, h2']
+            · cases h
+            · cases h
+          · cases h
+          · cases h
+        · rename_i hop
+          cases h
+          refine ⟨[], rfl, fun d' r' hR => ?_⟩
+          simp only [List.nil_append, pCallLoop]
+          rw [if_neg (by rw [hR.tag_eq _ (by decide) (by decide)]; exact hop)]
+      · cases h
+    case args =>
+      intro ts e d r h
+      simp only [pArgs] at h
+      split at h
+      · rename_i hck
+        cases h
+        refine ⟨[], rfl, fun d' r' hR => ?_⟩
+        simp only [checkTag, decide_eq_true_eq] at hck
+        simp only [List.nil_append, pArgs, checkTag, decide_eq_true_eq]
+        rw [if_pos (by rw [hR.tag_eq _ (by decide) (by decide)]; exact hck)]
+      · rename_i hck
+        obtain ⟨c, rfl, H⟩ := ih.argsLoop _ _ _ _ h
+        refine ⟨c, rfl, fun d' r' hR => ?_⟩
+        cases c with
+        | nil =>
+          exact absurd ((suffixAt f).argsLoop _ _ _ h).length_lt (Nat.lt_irrefl _)
+        | cons t' c' =>
+          have h1' := H d' r' hR
+          simp only [List.cons_append, checkTag] at h1' hck ⊢
+          simp only [pArgs, checkTag, hck]
+          exact h1'
+    case argsLoop =>
+      intro ts e d r h
+      simp only [pArgsLoop] at h
+      split at h
+      · rename_i e1 r1 h1
+        split at h
+        · rename_i t r1'
+          split at h
+          · rename_i hcomma
+            split at h
+            · rename_i es r2 h2
+              cases h
+              obtain ⟨c2, rfl, H2⟩ := ih.argsLoop _ _ _ _ h2
+              obtain ⟨c, rfl, H1⟩ := Loc.deep ih.expression Sw.refl (t :: c2) h1
+              refine ⟨c ++ t :: c2, by simp, fun d' r' hR => ?_⟩
+              have h1' := H1 d' r' (fun hh => by cases hh)
+              have h2' := H2 d' r' hR
+              simp only [List.cons_append, List.append_assoc] at h1' ⊢
+              simp only [pArgsLoop, h1', hcomma, if_true, h2']
+            · cases h
+            · cases h
+          · rename_i hcomma
+            cases h
+            obtain ⟨c, rfl, H1⟩ := ih.expression _ _ _ _ h1
+            refine ⟨c, rfl, fun d' r' hR => ?_⟩
+            simp only [pArgsLoop, H1 d' r' hR]
+            rw [if_neg (by rw [hR.tag_eq _ (by decide) (by decide)]; exact hcomma)]
+        · cases h
+      · cases h
+      · cases h
+    case rows =>
+      intro br prev idx ts e d r h
+      simp only [pRows] at h
+      split at h
+      · rename_i row r1 h1
+        split at h
+        · rename_i last hlast
+          split at h
+          · cases h
+          · rename_i hlen
+            obtain ⟨c2, rfl, H2⟩ := ih.rowsNext _ _ _ _ _ _ _ h
+            obtain ⟨c, rfl, H1⟩ := Loc.deep ih.args Sw.refl c2 h1
+            refine ⟨c ++ c2, by simp, fun d' r' hR => ?_⟩
+            have h1' := H1 d' r' (fun _ => hR.sw)
+            have h2' := H2 d' r' hR
+            rw [List.append_assoc]
+            simp only [pRows, h1', hlast]
+            rw [if_neg hlen]
+            exact h2'
+        · rename_i hlast
+          obtain ⟨c2, rfl, H2⟩ := ih.rowsNext _ _ _ _ _ _ _ h
+          obtain ⟨c, rfl, H1⟩ := Loc.deep ih.args Sw.refl c2 h1
+          refine ⟨c ++ c2, by simp, fun d' r' hR => ?_⟩
+          have h1' := H1 d' r' (fun _ => hR.sw)
+          have h2' := H2 d' r' hR
+          rw [List.append_assoc]
+          simp only [pRows, h1', hlast]
+          exact h2'
+      · cases h
+      · cases h
+    case rowsNext =>
+      intro br prev idx ts e d r h
+      simp only [pRowsNext] at h
+      split at h
+      · rename_i t r0
+        split at h
+        · rename_i hsemi
+          obtain ⟨c, rfl, H⟩ := ih.rows _ _ _ _ _ _ _ h
+          refine ⟨t :: c, rfl, fun d' r' hR => ?_⟩
+          simp only [List.cons_append, pRowsNext, hsemi, if_true, H d' r' hR]
+        · rename_i hsemi
+          cases h
+          refine ⟨[], rfl, fun d' r' hR => ?_⟩
+          simp only [List.nil_append, pRowsNext]
+          rw [if_neg (by rw [show d'.tag = _ from hR]; exact hsemi)]
+      · cases h
+    case primary =>
+      intro ts e d r h
+      simp only [pPrimary] at h
+      split at h
+      · cases h
+      · rename_i t r0
+        split at h
+        · rename_i z hk
+          split at h
+          · rename_i u r1
+            split at h
+            · rename_i un hu
+              cases h
+              refine ⟨[t, u], rfl, fun d' r' hR => ?_⟩
+              simp only [List.cons_append, List.nil_append, pPrimary, hk, hu]
+            · rename_i hnu
+              cases h
+              refine ⟨[t], rfl, fun d' r' hR => ?_⟩
+              simp only [List.cons_append, List.nil_append, pPrimary, hk]
+              split
+              · rename_i un hun
+                exact absurd hun (fun hh => hR.not_unit hnu _ hh)
+              · rfl
+          · cases h
+        · rename_i nm hk
+          cases h
+          refine ⟨[t], rfl, fun d' r' hR => ?_⟩
+          simp only [List.cons_append, List.nil_append, pPrimary, hk]
+        · rename_i hk
+          obtain ⟨c, rfl, H⟩ := ih.group _ _ _ _ _ _ h
+          refine ⟨t :: c, rfl, fun d' r' hR => ?_⟩
+          simp only [List.cons_append, pPrimary, hk, H d' r' hR]
+        · rename_i hk
+          obtain ⟨c, rfl, H⟩ := ih.group _ _ _ _ _ _ h
+          refine ⟨t :: c, rfl, fun d' r' hR => ?_⟩
+          simp only [List.cons_append, pPrimary, hk, H d' r' hR]
+        · rename_i hk
+          obtain ⟨c, rfl, H⟩ := ih.group _ _ _ _ _ _ h
+          refine ⟨t :: c, rfl, fun d' r' hR => ?_⟩
+          simp only [List.cons_append, pPrimary, hk, H d' r' hR]
+        · rename_i hk
+          obtain ⟨c, rfl, H⟩ := ih.group _ _ _ _ _ _ h
+          refine ⟨t :: c, rfl, fun d' r' hR => ?_⟩
+          simp only [List.cons_append, pPrimary, hk, H d' r' hR]
+        · rename_i hk
+          split at h
+          · rename_i rows r1 h1
+            split at h
+            · rename_i cl r2 h2
+              obtain ⟨rfl, hcl⟩ := consume_ok h2
+              cases h
+              obtain ⟨c, rfl, H1⟩ := Loc.deep (ih.rows _ _ _) SameTag.refl [cl] h1
+              refine ⟨t :: (c ++ [cl]), by simp, fun d' r' hR => ?_⟩
+              have h1' := H1 d' r' (fun hh => by cases hh)
+              simp only [List.cons_append, List.nil_append, List.append_assoc] at h1' ⊢
+              simp only [pPrimary, hk, h1', consume, hcl, if_true]
+            · cases h
+            · cases h
+          · cases h
+          · cases h
+        · cases h
+    case group =>
+      intro o k ts e d r h
+      simp only [pGroup] at h
+      split at h
+      · rename_i e1 r1 h1
+        split at h
+        · rename_i cl r2 h2
+          obtain ⟨rfl, hcl⟩ := consume_ok h2
+          cases h
+          obtain ⟨c, rfl, H1⟩ := Loc.deep ih.expression Sw.refl [cl] h1
+          refine ⟨c ++ [cl], by simp, fun d' r' hR => ?_⟩
+          have h1' := H1 d' r' (fun hh => by cases hh)
+          simp only [List.cons_append, List.nil_append, List.append_assoc] at h1' ⊢
+          simp only [pGroup, h1', consume, hcl, if_true]
+        · cases h
+        · cases h
+      · cases h
+      · cases h
+
+/-! ## Corollaries for `pExpression` -/
+
+/-- **Stop-token swap.**  If `pExpression` stops at `d`, its input is `c ++ d :: r` with `c`
+    non-empty, and on `c ++ d' :: r'` — any tail, any `d'` of the same tag or, when `d` is a
+    delimiter, any delimiter — it returns the same tree and stops at `d'`. -/
+theorem Parser.swap {f : Nat} {ts : List (Tok S)} {e : Expr S} {d : Tok S} {r : List (Tok S)}
+    (h : pExpression f ts = .ok e (d :: r)) :
+    ∃ c, c ≠ [] ∧ ts = c ++ d :: r ∧
+      ∀ d' r', Sw d d' → pExpression f (c ++ d' :: r') = .ok e (d' :: r') := by
+  obtain ⟨c, rfl, H⟩ := (localAt f).expression _ _ _ _ h
+  refine ⟨c, ?_, rfl, H⟩
+  rintro rfl
+  exact absurd ((suffixAt f).expression _ _ _ h).length_lt (Nat.lt_irrefl _)
+
+/-- **Tail replacement.**  The result depends only on the consumed prefix and the head of the
+    rest. -/
+theorem Parser.tail_replace {f : Nat} {ts : List (Tok S)} {e : Expr S} {t : Tok S}
+    {r : List (Tok S)} (h : pExpression f ts = .ok e (t :: r)) :
+    ∃ c, ts = c ++ t :: r ∧ ∀ r', pExpression f (c ++ t :: r') = .ok e (t :: r') := by
+  obtain ⟨c, _, hc, H⟩ := Parser.swap h
+  exact ⟨c, hc, fun r' => H t r' (Sw.refl t)⟩
+
+/-- **Locality.**  Input appended after a non-empty rest is never looked at. -/
+theorem Parser.locality {f : Nat} {ts : List (Tok S)} {e : Expr S} {r : List (Tok S)}
+    (h : pExpression f ts = .ok e r) (hr : r ≠ []) (x : List (Tok S)) :
+    pExpression f (ts ++ x) = .ok e (r ++ x) :=
+  (localAt f).expression.locality Sw.refl h hr x
+
+/-- `Parser.locality` for every one of the 22 functions -/
+structure AppendAt (S : Type) (f : Nat) : Prop where
+  expression : ∀ (ts : List (Tok S)) e r, pExpression f ts = .ok e r → r ≠ [] →
+    ∀ x, pExpression f (ts ++ x) = .ok e (r ++ x)
+  term : ∀ (ts : List (Tok S)) e r, pTerm f ts = .ok e r → r ≠ [] →
+    ∀ x, pTerm f (ts ++ x) = .ok e (r ++ x)
+  termLoop : ∀ acc (ts : List (Tok S)) e r, pTermLoop f acc ts = .ok e r → r ≠ [] →
+    ∀ x, pTermLoop f acc (ts ++ x) = .ok e (r ++ x)
+  factor : ∀ (ts : List (Tok S)) e r, pFactor f ts = .ok e r → r ≠ [] →
+    ∀ x, pFactor f (ts ++ x) = .ok e (r ++ x)
+  factorLoop : ∀ acc (ts : List (Tok S)) e r, pFactorLoop f acc ts = .ok e r → r ≠ [] →
+    ∀ x, pFactorLoop f acc (ts ++ x) = .ok e (r ++ x)
+  dot : ∀ (ts : List (Tok S)) e r, pDot f ts = .ok e r → r ≠ [] →
+    ∀ x, pDot f (ts ++ x) = .ok e (r ++ x)
+  dotLoop : ∀ acc (ts : List (Tok S)) e r, pDotLoop f acc ts = .ok e r → r ≠ [] →
+    ∀ x, pDotLoop f acc (ts ++ x) = .ok e (r ++ x)
+  cross : ∀ (ts : List (Tok S)) e r, pCross f ts = .ok e r → r ≠ [] →
+    ∀ x, pCross f (ts ++ x) = .ok e (r ++ x)
+  crossLoop : ∀ acc (ts : List (Tok S)) e r, pCrossLoop f acc ts = .ok e r → r ≠ [] →
+    ∀ x, pCrossLoop f acc (ts ++ x) = .ok e (r ++ x)
+  exponent : ∀ (ts : List (Tok S)) e r, pExponent f ts = .ok e r → r ≠ [] →
+    ∀ x, pExponent f (ts ++ x) = .ok e (r ++ x)
+  exponentLoop : ∀ acc (ts : List (Tok S)) e r, pExponentLoop f acc ts = .ok e r → r ≠ [] →
+    ∀ x, pExponentLoop f acc (ts ++ x) = .ok e (r ++ x)
+  unary : ∀ (ts : List (Tok S)) e r, pUnary f ts = .ok e r → r ≠ [] →
+    ∀ x, pUnary f (ts ++ x) = .ok e (r ++ x)
+  factorial : ∀ (ts : List (Tok S)) e r, pFactorial f ts = .ok e r → r ≠ [] →
+    ∀ x, pFactorial f (ts ++ x) = .ok e (r ++ x)
+  factorialLoop : ∀ acc (ts : List (Tok S)) e r, pFactorialLoop f acc ts = .ok e r → r ≠ [] →
+    ∀ x, pFactorialLoop f acc (ts ++ x) = .ok e (r ++ x)
+  call : ∀ (ts : List (Tok S)) e r, pCall f ts = .ok e r → r ≠ [] →
+    ∀ x, pCall f (ts ++ x) = .ok e (r ++ x)
+  callLoop : ∀ acc (ts : List (Tok S)) e r, pCallLoop f acc ts = .ok e r → r ≠ [] →
+    ∀ x, pCallLoop f acc (ts ++ x) = .ok e (r ++ x)
+  args : ∀ (ts : List (Tok S)) es r, pArgs f ts = .ok es r → r ≠ [] →
+    ∀ x, pArgs f (ts ++ x) = .ok es (r ++ x)
+  argsLoop : ∀ (ts : List (Tok S)) es r, pArgsLoop f ts = .ok es r → r ≠ [] →
+    ∀ x, pArgsLoop f (ts ++ x) = .ok es (r ++ x)
+  rows : ∀ br prev idx (ts : List (Tok S)) rows r, pRows f br prev idx ts = .ok rows r → r ≠ [] →
+    ∀ x, pRows f br prev idx (ts ++ x) = .ok rows (r ++ x)
+  rowsNext : ∀ br prev idx (ts : List (Tok S)) rows r,
+    pRowsNext f br prev idx ts = .ok rows r → r ≠ [] →
+    ∀ x, pRowsNext f br prev idx (ts ++ x) = .ok rows (r ++ x)
+  primary : ∀ (ts : List (Tok S)) e r, pPrimary f ts = .ok e r → r ≠ [] →
+    ∀ x, pPrimary f (ts ++ x) = .ok e (r ++ x)
+  group : ∀ o k (ts : List (Tok S)) e r, pGroup f o k ts = .ok e r → r ≠ [] →
+    ∀ x, pGroup f o k (ts ++ x) = .ok e (r ++ x)
+
+theorem appendAt (f : Nat) : AppendAt S f := by
+  have L := localAt (S := S) f
+  constructor
+  case expression => exact fun _ _ _ h hr x => L.expression.locality Sw.refl h hr x
+  case term => exact fun _ _ _ h hr x => L.term.locality Sw.refl h hr x
+  case termLoop => exact fun acc _ _ _ h hr x => (L.termLoop acc).locality Sw.refl h hr x
+  case factor => exact fun _ _ _ h hr x => L.factor.locality Sw.refl h hr x
+  case factorLoop => exact fun acc _ _ _ h hr x => (L.factorLoop acc).locality Sw.refl h hr x
+  case dot => exact fun _ _ _ h hr x => L.dot.locality Sw.refl h hr x
+  case dotLoop => exact fun acc _ _ _ h hr x => (L.dotLoop acc).locality Sw.refl h hr x
+  case cross => exact fun _ _ _ h hr x => L.cross.locality Sw.refl h hr x
+  case crossLoop => exact fun acc _ _ _ h hr x => (L.crossLoop acc).locality Sw.refl h hr x
+  case exponent => exact fun _ _ _ h hr x => L.exponent.locality Sw.refl h hr x
+  case exponentLoop => exact fun acc _ _ _ h hr x => (L.exponentLoop acc).locality Sw.refl h hr x
+  case unary => exact fun _ _ _ h hr x => L.unary.locality Sw.refl h hr x
+  case factorial => exact fun _ _ _ h hr x => L.factorial.locality Sw.refl h hr x
+  case factorialLoop =>
+    exact fun acc _ _ _ h hr x => (L.factorialLoop acc).locality Sw.refl h hr x
+  case call => exact fun _ _ _ h hr x => L.call.locality Sw.refl h hr x
+  case callLoop => exact fun acc _ _ _ h hr x => (L.callLoop acc).locality Sw.refl h hr x
+  case args => exact fun _ _ _ h hr x => L.args.locality Sw.refl h hr x
+  case argsLoop => exact fun _ _ _ h hr x => L.argsLoop.locality Sw.refl h hr x
+  case rows =>
+    exact fun br prev idx _ _ _ h hr x => (L.rows br prev idx).locality SameTag.refl h hr x
+  case rowsNext =>
+    exact fun br prev idx _ _ _ h hr x => (L.rowsNext br prev idx).locality SameTag.refl h hr x
+  case primary => exact fun _ _ _ h hr x => L.primary.locality Sw.refl h hr x
+  case group => exact fun o k _ _ _ h hr x => (L.group o k).locality Sw.refl h hr x
+
+/-! ## An expression never starts with a delimiter -/
+
+theorem pPrimary_head {f : Nat} {t : Tok S} {r : List (Tok S)} {e r'}
+    (h : pPrimary f (t :: r) = .ok e r') : ¬ isDelim t := by
+  intro hd
+  unfold isDelim Tok.tag at hd
+  cases f with
+  | zero => simp [pPrimary] at h
+  | succ f =>
+    simp only [pPrimary] at h
+    split at h <;> rename_i hk <;> first
+      | (rw [hk] at hd; simp [Kind.tag] at hd)
+      | skip
+    cases h
+
+set_option hygiene false in
+/-- `level = sub-level, then loop`: the head is the sub-level's head -/
+local macro "head_step " fn:ident ", " lower:ident : tactic => `(tactic| (
+  cases f with
+  | zero => simp [$fn:ident] at h
+  | succ f =>
+    simp only [$fn:ident] at h
+    split at h
+    · rename_i h1; exact $lower h1
+    · cases h
+    · cases h))
+
+theorem pCall_head {f : Nat} {t : Tok S} {r : List (Tok S)} {e r'}
+    (h : pCall f (t :: r) = .ok e r') : ¬ isDelim t := by head_step pCall, pPrimary_head
+
+theorem pFactorial_head {f : Nat} {t : Tok S} {r : List (Tok S)} {e r'}
+    (h : pFactorial f (t :: r) = .ok e r') : ¬ isDelim t := by head_step pFactorial, pCall_head
+
+theorem pUnary_head {f : Nat} {t : Tok S} {r : List (Tok S)} {e r'}
+    (h : pUnary f (t :: r) = .ok e r') : ¬ isDelim t := by
+  cases f with
+  | zero => simp [pUnary] at h
+  | succ f =>
+    simp only [pUnary] at h
+    split at h
+    · rename_i hop
+      intro hd
+      rcases hd with hd | hd <;> simp [hd] at hop
+    · exact pFactorial_head h
+
+theorem pExponent_head {f : Nat} {t : Tok S} {r : List (Tok S)} {e r'}
+    (h : pExponent f (t :: r) = .ok e r') : ¬ isDelim t := by head_step pExponent, pUnary_head
+
+theorem pCross_head {f : Nat} {t : Tok S} {r : List (Tok S)} {e r'}
+    (h : pCross f (t :: r) = .ok e r') : ¬ isDelim t := by head_step pCross, pExponent_head
+
+theorem pDot_head {f : Nat} {t : Tok S} {r : List (Tok S)} {e r'}
+    (h : pDot f (t :: r) = .ok e r') : ¬ isDelim t := by head_step pDot, pCross_head
+
+theorem pFactor_head {f : Nat} {t : Tok S} {r : List (Tok S)} {e r'}
+    (h : pFactor f (t :: r) = .ok e r') : ¬ isDelim t := by head_step pFactor, pDot_head
+
+theorem pTerm_head {f : Nat} {t : Tok S} {r : List (Tok S)} {e r'}
+    (h : pTerm f (t :: r) = .ok e r') : ¬ isDelim t := by head_step pTerm, pFactor_head
+
+/-- an expression never starts with a newline or `;` -/
+theorem pExpression_head {f : Nat} {t : Tok S} {r : List (Tok S)} {e r'}
+    (h : pExpression f (t :: r) = .ok e r') : ¬ isDelim t := by head_step pExpression, pTerm_head
+
+/-! ## Statement level -/
+
+theorem consumeDelim_delim {x : Tok S} (hx : isDelim x) (r : List (Tok S)) :
+    consumeDelim (x :: r) = .ok x r := by
+  rcases hx with hx | hx <;> simp [consumeDelim, hx]
+
+theorem isDelim_ne_equal {x : Tok S} (hx : isDelim x) : ¬ x.tag = .equal := by
+  rcases hx with hx | hx <;> simp [hx]
+
+/-- an expression followed by a delimiter is an expression statement -/
+theorem pStatementExpr_delim {fuel : Nat} {ts : List (Tok S)} {e : Expr S} {x : Tok S}
+    {R : List (Tok S)} (h : pExpression fuel ts = .ok e (x :: R)) (hx : isDelim x) :
+    pStatement.pStatementExpr fuel ts = .ok (.expr e) R := by
+  simp only [pStatement.pStatementExpr, h, consumeDelim_delim hx, isDelim_ne_equal hx, if_false]
+  split <;> rfl
+
+theorem pDelete_swap {fuel : Nat} {del : Tok S} {ts : List (Tok S)} {s : Stmt S}
+    {R : List (Tok S)} (h : pDelete fuel del ts = .ok s R) :
+    ∃ c x, isDelim x ∧ ts = c ++ x :: R ∧
+      ∀ x' R', isDelim x' → pDelete fuel del (c ++ x' :: R') = .ok s R' := by
+  unfold pDelete at h
+  split at h
+  · rename_i e r1 h1
+    split at h
+    · split at h
+      · rename_i x r' h2
+        obtain ⟨rfl, hx⟩ := consumeDelim_ok h2
+        cases h
+        obtain ⟨c, _, rfl, H⟩ := Parser.swap h1
+        refine ⟨c, x, hx, rfl, fun x' R' hx' => ?_⟩
+        simp only [pDelete, H x' R' (Sw.of_delim hx hx'), consumeDelim_delim hx']
+      · cases h
+      · cases h
+    · split at h
+      · rename_i x r' h2
+        obtain ⟨rfl, hx⟩ := consumeDelim_ok h2
+        split at h
+        · rename_i name sig hsig
+          cases h
+          obtain ⟨c, _, rfl, H⟩ := Parser.swap h1
+          refine ⟨c, x, hx, rfl, fun x' R' hx' => ?_⟩
+          simp only [pDelete, H x' R' (Sw.of_delim hx hx'), consumeDelim_delim hx', hsig]
+        · cases h
+      · cases h
+      · cases h
+    · cases h
+  · cases h
+  · cases h
+
+theorem pStatementExpr_swap {fuel : Nat} {ts : List (Tok S)} {s : Stmt S}
+    {R : List (Tok S)} (h : pStatement.pStatementExpr fuel ts = .ok s R) :
+    ∃ c x, c ≠ [] ∧ isDelim x ∧ ts = c ++ x :: R ∧
+      ∀ x' R', isDelim x' → pStatement.pStatementExpr fuel (c ++ x' :: R') = .ok s R' := by
+  -- the expression-statement fallback, shared by five branches
+  have fallback : ∀ e r1, pExpression fuel ts = .ok e r1 →
+      (match consumeDelim r1 with
+        | .ok _ r' => PRes.ok (Stmt.expr e) r'
+        | .err e => .err e
+        | .fuel => .fuel) = .ok s R →
+      ∃ c x, c ≠ [] ∧ isDelim x ∧ ts = c ++ x :: R ∧
+        ∀ x' R', isDelim x' → pStatement.pStatementExpr fuel (c ++ x' :: R') = .ok s R' := by
+    intro e r1 h1 h
+    split at h
+    · rename_i x r' h2
+      obtain ⟨rfl, hx⟩ := consumeDelim_ok h2
+      cases h
+      obtain ⟨c, hc, rfl, H⟩ := Parser.swap h1
+      exact ⟨c, x, hc, hx, rfl, fun x' R' hx' =>
+        pStatementExpr_delim (H x' R' (Sw.of_delim hx hx')) hx'⟩
+    · cases h
+    · cases h
+  unfold pStatement.pStatementExpr at h
+  split at h
+  · rename_i e r1 h1
+    simp only at h
+    split at h
+    · -- identifier: assignment or expression statement
+      rename_i name
+      split at h
+      · rename_i eq r1'
+        split at h
+        · rename_i heq
+          split at h
+          · rename_i right r2 h2
+            split at h
+            · rename_i x r3 h3
+              obtain ⟨rfl, hx⟩ := consumeDelim_ok h3
+              cases h
+              obtain ⟨c2, _, rfl, H2⟩ := Parser.swap h2
+              obtain ⟨c, rfl, H1⟩ := Loc.deep (localAt fuel).expression Sw.refl (eq :: c2) h1
+              refine ⟨c ++ eq :: c2, x, by simp, hx, by simp, fun x' R' hx' => ?_⟩
+              have h1' := H1 x' R' (fun hh => by cases hh)
+              have h2' := H2 x' R' (Sw.of_delim hx hx')
+              simp only [List.cons_append, List.append_assoc] at h1' ⊢
+              simp only [pStatement.pStatementExpr, h1', heq, if_true, h2', consumeDelim_delim hx']
+            · cases h
+            · cases h
+          · cases h
+          · cases h
+        · exact fallback _ _ h1 h
+      · exact fallback _ _ h1 h
+    · -- call: definition or expression statement
+      rename_i callee paren args
+      split at h
+      · rename_i eq r1'
+        split at h
+        · rename_i heq
+          split at h
+          · rename_i body r2 h2
+            split at h
+            · rename_i x r3 h3
+              obtain ⟨rfl, hx⟩ := consumeDelim_ok h3
+              split at h
+              · rename_i name sig hsig
+                cases h
+                obtain ⟨c2, _, rfl, H2⟩ := Parser.swap h2
+                obtain ⟨c, rfl, H1⟩ := Loc.deep (localAt fuel).expression Sw.refl (eq :: c2) h1
+                refine ⟨c ++ eq :: c2, x, by simp, hx, by simp, fun x' R' hx' => ?_⟩
+                have h1' := H1 x' R' (fun hh => by cases hh)
+                have h2' := H2 x' R' (Sw.of_delim hx hx')
+                simp only [List.cons_append, List.append_assoc] at h1' ⊢
+                simp only [pStatement.pStatementExpr, h1', heq, if_true, h2',
+                  consumeDelim_delim hx', hsig]
+              · cases h
+            · cases h
+            · cases h
+          · cases h
+          · cases h
+        · exact fallback _ _ h1 h
+      · exact fallback _ _ h1 h
+    · exact fallback _ _ h1 h
+  · cases h
+  · cases h
+
+/-- **Statement-level swap.**  A successfully parsed statement is `c ++ x :: R`: a non-empty body
+    `c`, the delimiter `x` that ends it, and the rest `R`.  With any other delimiter `x'` in place
+    of `x` and any other input `R'` after it, the same statement is parsed and the rest is `R'`. -/
+theorem pStatement_swap {fuel : Nat} {ts : List (Tok S)} {s : Stmt S} {R : List (Tok S)}
+    (h : pStatement fuel ts = .ok s R) :
+    ∃ c x, c ≠ [] ∧ isDelim x ∧ ts = c ++ x :: R ∧
+      ∀ x' R', isDelim x' → pStatement fuel (c ++ x' :: R') = .ok s R' := by
+  unfold pStatement at h
+  split at h
+  · rename_i t r0
+    split at h
+    · rename_i hdel
+      obtain ⟨c, x, hx, rfl, H⟩ := pDelete_swap h
+      refine ⟨t :: c, x, by simp, hx, rfl, fun x' R' hx' => ?_⟩
+      simp only [List.cons_append, pStatement, hdel, if_true, H x' R' hx']
+    · rename_i hdel
+      split at h
+      · rename_i hclear
+        split at h
+        · rename_i x r' h2
+          obtain ⟨rfl, hx⟩ := consumeDelim_ok h2
+          cases h
+          refine ⟨[t], x, by simp, hx, rfl, fun x' R' hx' => ?_⟩
+          simp only [List.cons_append, List.nil_append, pStatement]
+          rw [if_neg hdel, if_pos hclear]
+          simp only [consumeDelim_delim hx']
+        · cases h
+        · cases h
+      · rename_i hclear
+        obtain ⟨c, x, hc, hx, hts, H⟩ := pStatementExpr_swap h
+        refine ⟨c, x, hc, hx, hts, fun x' R' hx' => ?_⟩
+        cases c with
+        | nil => exact absurd rfl hc
+        | cons t' c' =>
+          simp only [List.cons_append, List.cons.injEq] at hts
+          obtain ⟨rfl, rfl⟩ := hts
+          have := H x' R' hx'
+          simp only [List.cons_append] at this ⊢
+          simp only [pStatement, hdel, hclear, if_false]
+          exact this
+  · obtain ⟨c, x, hc, hx, hts, H⟩ := pStatementExpr_swap h
+    simp at hts
+
+/-- a statement never starts with a newline or `;` -/
+theorem pStatement_head {fuel : Nat} {t : Tok S} {r : List (Tok S)} {s : Stmt S}
+    {R : List (Tok S)} (h : pStatement fuel (t :: r) = .ok s R) : ¬ isDelim t := by
+  intro hd
+  have h1 : ¬ t.tag = .delete := by rcases hd with hd | hd <;> simp [hd]
+  have h2 : ¬ t.tag = .clear := by rcases hd with hd | hd <;> simp [hd]
+  simp only [pStatement, h1, h2, if_false] at h
+  unfold pStatement.pStatementExpr at h
+  split at h
+  · rename_i h1; exact pExpression_head h1 hd
+  · cases h
+  · cases h
 
 end Calc
